@@ -128,18 +128,64 @@ def is_none(x):
     return x
 
 
+def fails_only_if_not_found(vm, st, exc_class, exc_args):
+    """for a rule on a struct with the documented number of parameters the only reason to fail is that no member has the
+    given name: a rule that names an existing member -- the first one included -- is applied"""
+    m = st['members']
+    j = vm.fresh('j')
+    name_j = z3.Select(st['pre']['name'], m.elem0(j).t)
+    return applies_only_if_found(vm, st, exc_class, exc_args) + [
+        ('fails only when no member has the given name', z3.Implies(z3.And(0 <= j, j < st['n0']), name_j != st['params'][0].t))]
+
+
+def remove_post(vm, st, result):
+    """remove: the first member with the given name is taken out, the others keep their order and their attributes"""
+    m = st['members']
+    j, i = vm.fresh('j'), vm.fresh('i')
+    inr = z3.And(0 <= j, j < st['n0'], target(vm, st, j))
+    same = [vm.heap_array(a) == st['pre'][a] for a in ('bound', 'bound#none', 'size', 'size#none', 'greedy', 'optional', 'name')]
+    return [('one member less', m.length == st['n0'] - 1),
+            ('members before the named one stay in place', z3.Implies(z3.And(inr, 0 <= i, i < j), m.elem(i).t == m.elem0(i).t)),
+            ('members after the named one move up by one', z3.Implies(z3.And(inr, j <= i, i < st['n0'] - 1),
+                                                                       m.elem(i).t == m.elem0(i + 1).t)),
+            ('no member is rewritten', z3.And(z3.BoolVal(not st['type_writes']), *same)),
+            ('the (patched) node is returned', result.t == st['node'].t)]
+
+
+def type_post(vm, st, result):
+    """type: the first member with the given name gets the given type name, nothing else is touched"""
+    m = st['members']
+    j = vm.fresh('j')
+    inr = z3.And(0 <= j, j < st['n0'], target(vm, st, j))
+    same = [vm.heap_array(a) == st['pre'][a] for a in ('bound', 'bound#none', 'size', 'size#none', 'greedy', 'optional', 'name')]
+    w = st['type_writes']
+    return [('exactly one type name is written', z3.BoolVal(len(w) == 1)),
+            ('it is the named member that gets the given type', z3.Implies(inr, z3.And(w[0][0].t == m.elem0(j).t,
+                                                                                         vm.as_str(w[0][1]) == st['params'][1].t))
+             if len(w) == 1 else z3.BoolVal(False)),
+            ('nothing else is touched', z3.And(z3.BoolVal(not m.mutations), *same)),
+            ('the (patched) node is returned', result.t == st['node'].t)]
+
+
+Contract(PATCH, '_remove', ['C17'], pa_setup(1), remove_post, shapes=SH, raises=fails_only_if_not_found, hooks=pa_hooks(), modifies=[],
+         notes=['remove: docs/other_schemas.rst -- the named member is taken out of the struct'])
+
+Contract(PATCH, '_type', ['C17'], pa_setup(2), type_post, shapes=SH, raises=fails_only_if_not_found, hooks=pa_hooks(), modifies=[],
+         notes=['type: the member type name is a property over _value; the write is recorded by the setattr hook'])
+
+
 Contract(PATCH, '_static', ['C17'], pa_setup(2), post_for(lambda vm, st, new, old: z3.And(
     new['bound#none'], z3.Not(new['size#none']), new['size'] == st['params'][1].t, z3.Not(new['optional']), new['greedy'] == old['greedy'])),
-    shapes=SH, raises=applies_only_if_found, hooks=pa_hooks(), modifies=['bound', 'size', 'optional'],
+    shapes=SH, raises=fails_only_if_not_found, hooks=pa_hooks(), modifies=['bound', 'size', 'optional'],
     notes=['static: a fixed array of the given size: no sizer left over, not optional'])
 
 Contract(PATCH, '_dynamic', ['C17'], pa_setup(2), post_for(lambda vm, st, new, old: z3.And(
     z3.Not(new['bound#none']), new['bound'] == st['params'][1].t, new['size#none'], z3.Not(new['optional']), new['greedy'] == old['greedy'])),
-    shapes=SH, raises=applies_only_if_found, hooks=pa_hooks(), modifies=['bound', 'size', 'optional'])
+    shapes=SH, raises=fails_only_if_not_found, hooks=pa_hooks(), modifies=['bound', 'size', 'optional'])
 
 Contract(PATCH, '_greedy', ['C17'], pa_setup(1), post_for(lambda vm, st, new, old: z3.And(
     new['greedy'], new['bound#none'], new['size#none'], z3.Not(new['optional']))),
-    shapes=SH, raises=applies_only_if_found, hooks=pa_hooks(), modifies=['bound', 'size', 'optional', 'greedy'])
+    shapes=SH, raises=fails_only_if_not_found, hooks=pa_hooks(), modifies=['bound', 'size', 'optional', 'greedy'])
 
 
 def limited_expect(vm, st, new, old):
